@@ -20,6 +20,7 @@ import KyupyVerif.Drv.DataPath
 import KyupyVerif.Drv.Callback
 import KyupyVerif.Drv.HeapHist
 import KyupyVerif.Drv.Accum
+import KyupyVerif.Drv.SdfWave
 /-! Stateless driver extensions: each module `KyupyVerif/Drv/<Name>.lean` defines
 `handle : String → List String → Option String` (command word, remaining tokens → answer, or `none`
 when the command is not its own) and is listed in `extHandlers` below. -/
@@ -47,7 +48,8 @@ def extHandlers : List (String → List String → Option String) := [
   KV.Drv.DataPath.handle,
   KV.Drv.Callback.handle,
   KV.Drv.HeapHist.handle,
-  KV.Drv.Accum.handle
+  KV.Drv.Accum.handle,
+  KV.Drv.SdfWave.handle
 ]
 
 def tryExt (cmd : String) (args : List String) : Option String :=
